@@ -211,3 +211,8 @@ pub use exports::*;
 #[cfg(not(feature = "__internal-api"))]
 pub(crate) use exports::*;
 use serde::{Deserialize, Serialize};
+
+// verification hook (guard: cfg(kani)); shared stubs for the contract harnesses
+#[cfg(kani)]
+#[path = "/verif/kani/ntp_proto/common.rs"]
+mod verif_common;
